@@ -19,5 +19,10 @@ case "$ID" in C08|C12|C15|C16|C17|C18|C19)
   # the real command, for the deterministic slice that cross-checks the in-process driver
   (cd /repo && go build -o "$B/gojq" ./cmd/gojq) 2>>"$B/build.log" || { echo "BUILD-ERROR property=$ID (cmd/gojq does not build)" >&2; cat "$B/build.log" >&2; exit 2; } ;;
 esac
+if [ "$ID" = C06 ]; then
+  # the race-enabled harness, with the gojq sources' "sync" import rewritten to the scheduling shim (overlay; /repo untouched)
+  python3 "$VERIF_ROOT/tools/mkoverlay.py" "$B" >>"$B/build.log" 2>&1 &&
+  go build -race -tags verif -overlay "$B/overlay.json" -o "$B/c06h" ./cmd/c06h 2>>"$B/build.log" || { echo "BUILD-ERROR property=$ID (the race-enabled harness does not build)" >&2; cat "$B/build.log" >&2; exit 2; }
+fi
 export VCHECK_BIN_DIR="$B"
 "$B/vcheck" run "$ID" "$TIER"
